@@ -315,10 +315,73 @@ func idsB(opts []optB) []int {
 	return out
 }
 
+// optLambda: a lambda with call options of type T that records the payloads it receives. nat
+// chooses which of the four paradigms the lambda implements natively (0 Invoke, 1 Stream,
+// 2 Collect, 3 Transform, 4 Invoke+Transform, 5 Stream+Collect); the graph derives the others,
+// and the derived views (invokeByStream, streamByCollect, ... of compose/runnable.go) have to
+// hand the node's options on.
+func optLambda[T any](path string, nat int, ids func([]T) []int) *compose.Lambda {
+	drain := func(in *schema.StreamReader[map[string]any]) {
+		for {
+			if _, err := in.Recv(); err != nil {
+				break
+			}
+		}
+		in.Close()
+	}
+	i := func(ctx context.Context, in map[string]any, opts ...T) (string, error) {
+		if err := visit(ctx, path, ids(opts)); err != nil {
+			return "", err
+		}
+		return "x", nil
+	}
+	s := func(ctx context.Context, in map[string]any, opts ...T) (*schema.StreamReader[string], error) {
+		if err := visit(ctx, path, ids(opts)); err != nil {
+			return nil, err
+		}
+		return schema.StreamReaderFromArray([]string{"x"}), nil
+	}
+	c := func(ctx context.Context, in *schema.StreamReader[map[string]any], opts ...T) (string, error) {
+		drain(in)
+		if err := visit(ctx, path, ids(opts)); err != nil {
+			return "", err
+		}
+		return "x", nil
+	}
+	t := func(ctx context.Context, in *schema.StreamReader[map[string]any], opts ...T) (*schema.StreamReader[string], error) {
+		drain(in)
+		if err := visit(ctx, path, ids(opts)); err != nil {
+			return nil, err
+		}
+		return schema.StreamReaderFromArray([]string{"x"}), nil
+	}
+	switch nat {
+	case 1:
+		return compose.StreamableLambdaWithOption(s)
+	case 2:
+		return compose.CollectableLambdaWithOption(c)
+	case 3:
+		return compose.TransformableLambdaWithOption(t)
+	case 4:
+		l, err := compose.AnyLambda(i, nil, nil, t)
+		if err != nil {
+			panic(err)
+		}
+		return l
+	case 5:
+		l, err := compose.AnyLambda(nil, s, c, nil)
+		if err != nil {
+			panic(err)
+		}
+		return l
+	}
+	return compose.InvokableLambdaWithOption(i)
+}
+
 // addComp adds the fake component of option type ty under key to g and returns the value the
 // node expects as input, which it takes from the entry of the input map named by its node path
 // (nil: a lambda, which takes the whole map).
-func addComp(ctx context.Context, g nodeSink, key, path string, ty int) (any, error) {
+func addComp(ctx context.Context, g nodeSink, key, path string, ty, nat int) (any, error) {
 	o := []compose.GraphAddNodeOpt{compose.WithNodeName(path), compose.WithInputKey(path), compose.WithOutputKey(key)}
 	lo := []compose.GraphAddNodeOpt{compose.WithNodeName(path), compose.WithOutputKey(key)}
 	if g.isWorkflow() {
@@ -351,21 +414,9 @@ func addComp(ctx context.Context, g nodeSink, key, path string, ty int) (any, er
 		msg := schema.AssistantMessage("", []schema.ToolCall{{ID: "c1", Function: schema.FunctionCall{Name: "faketool", Arguments: "{}"}}})
 		return msg, g.AddToolsNode(key, tn, o...)
 	case tyLambdaA:
-		l := compose.InvokableLambdaWithOption(func(ctx context.Context, in map[string]any, opts ...optA) (string, error) {
-			if err := visit(ctx, path, idsA(opts)); err != nil {
-				return "", err
-			}
-			return "x", nil
-		})
-		return nil, g.AddLambdaNode(key, l, lo...)
+		return nil, g.AddLambdaNode(key, optLambda(path, nat, idsA), lo...)
 	case tyLambdaB:
-		l := compose.InvokableLambdaWithOption(func(ctx context.Context, in map[string]any, opts ...optB) (string, error) {
-			if err := visit(ctx, path, idsB(opts)); err != nil {
-				return "", err
-			}
-			return "x", nil
-		})
-		return nil, g.AddLambdaNode(key, l, lo...)
+		return nil, g.AddLambdaNode(key, optLambda(path, nat, idsB), lo...)
 	case tyIndexer:
 		return []*schema.Document{{ID: "d"}}, g.AddIndexerNode(key, &fakeIndexer{path}, o...)
 	case tyLoader:
